@@ -25,12 +25,19 @@ theorem not_U2err_of_clean {e : Err} (h : e.Clean) : ¬ U2err e := by
 theorem not_U2err_panic {s : String} (h : ¬ U2 s) : ¬ U2err (.panic s) := h
 theorem not_U2err_internal {s : String} (h : ¬ U2 s) : ¬ U2err (.internal s) := h
 
+/-- the site of a *guard* a client may put in front of `handle_tag` (see `Thm/C06_EndTag.lean`) -/
+def guardSite : String := "guard: tag lexeme of the wrong kind while a hint is pending"
+
+/-- the errors the walks have to exclude explicitly for the parser's own failures: the `U2` sites and
+the client's guard -/
+def U3err (e : Err) : Prop := U2err e ∨ e = .panic guardSite
+
 /-- sink laws for the re-lexing argument, for a flag `Pend` that only a hint of kind `K` (`true`: start
-tag) can raise and the next tag lexeme lowers, and a class `Uerr ⊆ U2err` of errors the sink reports
+tag) can raise and the next tag lexeme lowers, and a class `Uerr ⊆ U3err` of errors the sink reports
 only when a lexeme of the other kind arrives while `Pend` is up -/
 structure XLaws (ops : SinkOps κ) (inp : Bytes) (Pend : κ → Bool) (Good : κ → Prop) (K : Bool) (Uerr : Err → Prop) : Prop where
   hint : PendLaw ops Pend K
-  sub : ∀ e, Uerr e → U2err e
+  sub : ∀ e, Uerr e → U3err e
   goodNT : ∀ lx k, Good k → Good (ops.handleNonTag inp lx k).1
   goodT : ∀ lx k, Good k → (Pend k = true → lx.outline.isStart = K) → Good (ops.handleTag inp lx k).1
   goodS : ∀ n ns k, Good k → Pend k = false → Good (ops.startTagHint n ns k).1
@@ -43,7 +50,7 @@ structure XLaws (ops : SinkOps κ) (inp : Bytes) (Pend : κ → Bool) (Good : κ
   errE : ∀ n k e, (ops.endTagHint n k).2 = .error e → ¬ Uerr e
 
 theorem XLaws.noU {ops : SinkOps κ} {inp : Bytes} {Pend : κ → Bool} {Good : κ → Prop} {K : Bool} {Uerr : Err → Prop}
-    (h : XLaws ops inp Pend Good K Uerr) {e : Err} (he : ¬ U2err e) : ¬ Uerr e := fun hu => he (h.sub e hu)
+    (h : XLaws ops inp Pend Good K Uerr) {e : Err} (he : ¬ U3err e) : ¬ Uerr e := fun hu => he (h.sub e hu)
 
 /-! ### the dispatcher -/
 
@@ -390,7 +397,7 @@ theorem endTagHint_noU2 (name : LocalName) (d : Disp γ) : DErr NoU2 (Disp.endTa
 
 /-- **the dispatcher satisfies the sink laws** -/
 theorem dispOps_xlaws : XLaws (dispOps ctl) inp (fun d : Disp γ => d.pendingAux) Disp.Good true U2err where
-  sub := fun _ h => h
+  sub := fun _ h => Or.inl h
   hint := {
     start := by
       intro n ns k hp hr
